@@ -47,6 +47,13 @@ type RuntimeOpts struct {
 	// the order in which the path names them (`message R { string post_id = 1; string user_id = 2; }` for
 	// `/users/{user_id}/posts/{post_id}`).
 	ReorderPathFields bool
+	// OddBasePaths: the service base path is sometimes spelled non-canonically but legally: with a trailing slash
+	// (`/api/v1/`) or as the bare root (`/`) — every generator normalises the join of base path and method path.
+	OddBasePaths bool
+	// OptionalQuery: some singular query-bound fields carry the proto3 `optional` keyword (a pointer in the generated
+	// Go struct: the unchanged Go client does not compile for them, so only server-side checks may ask for it) —
+	// `required` on such a parameter still means "the URL must carry it".
+	OptionalQuery bool
 }
 
 var urlFieldNames = []string{"user_id", "org", "page", "q", "name", "ratio", "flag", "item_id", "limit", "cursor", "since", "tenant_name"}
@@ -103,6 +110,9 @@ func GenRuntimeFile(r *R, idx int, o RuntimeOpts) *ir.Request {
 	}
 	f.Messages = append(f.Messages, leaf, resp)
 	svc := &ir.Service{Name: "Api", BasePath: Pick(r, []string{"/api/v1", "/v2", "/svc"})}
+	if o.OddBasePaths {
+		svc.BasePath = []string{"/", "/api/v1/", "/v2", "/svc/"}[idx%4]
+	}
 	verbs := []string{"GET", "POST", "PUT", "DELETE", "PATCH"}
 	nm := 5
 	if o.ManyMethods {
@@ -162,6 +172,12 @@ func GenRuntimeFile(r *R, idx int, o RuntimeOpts) *ir.Request {
 			qf := &ir.Field{Name: fn, Number: no, Kind: Pick(r, queryKinds), Ann: ir.Ann{Query: qa}}
 			if o.RepeatedQuery && r.P(1, 3) {
 				qf.Card = "repeated"
+			}
+			if o.OptionalQuery && qf.Card == "" && r.P(1, 3) {
+				qf.Card = "optional"
+				if r.Bool() {
+					qa.Required = true
+				}
 			}
 			in.Fields = append(in.Fields, qf)
 			no++
